@@ -1,4 +1,5 @@
 # sourced by every script: offline Go environment
 export GOFLAGS=-mod=mod GOPROXY=off GOSUMDB=off GOTOOLCHAIN=local CGO_ENABLED=1
-export VERIF_DIR="${VERIF_DIR:-/verif}"
+# the verification tree this script belongs to (so that a snapshot copy uses its own bin/, .gen/, evidence/)
+export VERIF_DIR="${VERIF_DIR:-$(cd "$(dirname "${BASH_SOURCE[0]}")/.." && pwd)}"
 export GOCACHE="${GOCACHE:-/root/.cache/go-build}"
